@@ -12,6 +12,7 @@ import subprocess
 import tempfile
 
 from .. import build, fs, ilexec
+from ..typegrid import typegrid
 from . import c19
 
 LEVEL = 'exploration'
@@ -114,6 +115,8 @@ def _msan_job(batch):
 def inputs(chk):
     files = c19.corpus()
     items = []
+    for label, data in typegrid(chk.quick):
+        items.append((label, data, 'x86_64-sysv', False))
     for name, src, targ, pp in files:
         items.append((name, src, targ, pp))
         if not pp:
